@@ -1,0 +1,18 @@
+//go:build verif
+
+package view
+
+// Abstract is an element view for the gocv verifier (property C24): it
+// declares arbitrary heights and records the heights it is granted. It is
+// compiled with the build tag verif only.
+type Abstract struct {
+	Min, Max int
+	Granted  []int
+}
+
+func (a *Abstract) MinLines() int { return a.Min }
+func (a *Abstract) MaxLines() int { return a.Max }
+func (a *Abstract) Print(n int) error {
+	a.Granted = append(a.Granted, n)
+	return nil
+}
